@@ -4,6 +4,7 @@ import itertools
 import g1
 
 PROPERTY = 'C01'
+THOROUGH_EXTRA = 60
 
 
 def _placements(A, S):
@@ -200,7 +201,7 @@ def _loader_harness(S, spec):
 
 
 def budget(tier, name):
-    return 400.0 if tier == 'quick' else 1500.0
+    return 400.0 if tier == 'quick' else 600.0
 
 
 def harness(S, spec):
